@@ -124,13 +124,188 @@ def discharge_all(obligations, timeout_s=20, confirm=False, workers=None):
     return results
 
 
+def free_consts(terms):
+    seen, out = set(), {}
+    stack = list(terms)
+    while stack:
+        e = stack.pop()
+        if e.get_id() in seen:
+            continue
+        seen.add(e.get_id())
+        if z3.is_const(e) and e.decl().kind() == z3.Z3_OP_UNINTERPRETED:
+            out[e.decl().name()] = e
+        stack.extend(e.children())
+        if z3.is_quantifier(e):
+            stack.append(e.body())
+    return list(out.values())
+
+
 def model_for(ob, timeout_ms=30000):
-    """in-process z3 model of pc ∧ ¬goal (for counterexample decoding)"""
-    s = z3.Solver()
-    s.set('timeout', timeout_ms)
-    s.add(*ob.pc)
-    s.add(z3.Not(ob.goal))
-    r = s.check()
-    if r == z3.sat:
-        return s.model()
-    return None
+    """in-process z3 model of pc and not goal (for counterexample decoding): first with small
+    bounds on every sequence/string constant (small witnesses, and much easier to find), then free"""
+    consts = free_consts(list(ob.pc) + [ob.goal])
+    for bound in (2, 4, None):
+        s = z3.Solver()
+        s.set('timeout', timeout_ms // 3)
+        s.add(*ob.pc)
+        s.add(z3.Not(ob.goal))
+        if bound is not None:
+            for c in consts:
+                if z3.is_seq(c):
+                    s.add(z3.Length(c) <= (bound if not z3.is_string(c) else bound + 4))
+        if s.check() == z3.sat:
+            return s.model()
+    return guided_model(ob, consts, timeout_ms)
+
+
+def sexpr_split(text):
+    """top-level s-expressions of *text* (strings with "" escapes respected)"""
+    out, depth, start, i, n = [], 0, None, 0, len(text)
+    while i < n:
+        ch = text[i]
+        if ch == '"':
+            if depth == 0 and start is None:
+                start = i
+            i += 1
+            while i < n:
+                if text[i] == '"':
+                    if i + 1 < n and text[i + 1] == '"':
+                        i += 2
+                        continue
+                    break
+                i += 1
+            if depth == 0:
+                out.append(text[start:i + 1])
+                start = None
+        elif ch == '(':
+            if depth == 0:
+                start = i
+            depth += 1
+        elif ch == ')':
+            depth -= 1
+            if depth == 0:
+                out.append(text[start:i + 1])
+                start = None
+        elif depth == 0 and not ch.isspace():
+            j = i
+            while j < n and not text[j].isspace() and text[j] not in '()':
+                j += 1
+            out.append(text[i:j])
+            i = j - 1
+        i += 1
+    return out
+
+
+def guided_model(ob, consts, timeout_ms):
+    """z3 5.1 in-process sometimes cannot construct a model that z3 4.8 finds at once: ask the
+    command-line solvers for the values of the constants and pin them in-process"""
+    from . import values as vl
+    want = [c for c in consts if c.sort() in (vl.Val, vl.SeqVal, vl.String, vl.Int, vl.Bool)]
+    if not want:
+        return None
+    text = smt2_of(ob.pc, ob.goal)
+    names = ' '.join(c.sexpr() for c in want)
+    text = text.replace('(check-sat)', '(check-sat)\n(get-value (%s))' % names)
+    d = tempfile.mkdtemp(prefix='pyvc-')
+    try:
+        p = os.path.join(d, 'q.smt2')
+        open(p, 'w').write(text)
+        for cmd in (['/usr/bin/z3', '-smt2', '-T:20', p], ['z3-new', '-smt2', '-T:20', p]):
+            try:
+                r = subprocess.run(cmd, capture_output=True, text=True, timeout=30)
+            except Exception:
+                continue
+            out = r.stdout.strip()
+            if not out.startswith('sat'):
+                continue
+            body = out[3:].strip()
+            if not body.startswith('('):
+                continue
+            pairs = sexpr_split(body[1:-1])
+            pins = []
+            decls = {c.sexpr(): c for c in want}
+            for pr in pairs:
+                parts = sexpr_split(pr[1:-1])
+                if len(parts) != 2 or parts[0] not in decls:
+                    continue
+                if 'seq.nth_' in parts[1] or 'lambda' in parts[1]:
+                    continue
+                try:
+                    a = z3.parse_smt2_string('(assert (= %s %s))' % (parts[0], parts[1]),
+                                             sorts={'Val': vl.Val}, decls={parts[0]: decls[parts[0]]})
+                    pins.extend(a)
+                except Exception:
+                    continue
+            if not pins:
+                continue
+            s = z3.Solver()
+            s.set('timeout', timeout_ms // 3)
+            s.add(*ob.pc)
+            s.add(z3.Not(ob.goal))
+            s.add(*pins)
+            if s.check() == z3.sat:
+                return s.model()
+        return None
+    finally:
+        shutil.rmtree(d, ignore_errors=True)
+
+
+def forked(fn, timeout_s=60, default=None):
+    """run fn() in a forked child (z3 can crash the interpreter on some seq/recfun queries);
+    the child's JSON-able result is piped back; a crash or timeout gives *default*"""
+    import json
+    import select
+    import signal
+    r, w = os.pipe()
+    pid = os.fork()
+    if pid == 0:
+        try:
+            os.close(r)
+            try:
+                out = json.dumps(fn(), default=str).encode()
+            except BaseException as e:  # noqa
+                out = json.dumps({'__error__': '%s: %s' % (type(e).__name__, e)}).encode()
+            with os.fdopen(w, 'wb') as f:
+                f.write(out)
+        finally:
+            os._exit(0)
+    os.close(w)
+    data = b''
+    deadline = time.time() + timeout_s
+    with os.fdopen(r, 'rb') as f:
+        while True:
+            left = deadline - time.time()
+            if left <= 0:
+                break
+            ready, _, _ = select.select([f], [], [], left)
+            if not ready:
+                break
+            chunk = os.read(f.fileno(), 1 << 16)
+            if not chunk:
+                break
+            data += chunk
+    try:
+        os.kill(pid, signal.SIGKILL)
+    except ProcessLookupError:
+        pass
+    try:
+        os.waitpid(pid, 0)
+    except ChildProcessError:
+        pass
+    if not data:
+        return default
+    try:
+        import json as _j
+        return _j.loads(data.decode())
+    except Exception:
+        return default
+
+
+def feasible_forked(pc, timeout_ms):
+    def fn():
+        s = z3.Solver()
+        s.set('timeout', timeout_ms)
+        s.add(*pc)
+        return str(s.check())
+    r = forked(fn, timeout_s=timeout_ms / 1000.0 + 2, default='unknown')
+    return r != 'unsat'
